@@ -459,6 +459,18 @@ def check_families(run: Run, cases: list[dict], kinds: dict[str, dict], T: dict,
             t0 = time.time()
             fams = eval_families(pool, seeds, T["per_seed"], part, kinds, want_keys=False)
             records = family_records(fams, kinds, seeds)
+            for fid, by_seed in fams.items():
+                for s_, r_ in by_seed.items():
+                    for i, j, op, exn in r_.get("raised") or []:
+                        run.violation(
+                            f"raised/{r_['kind']}/{exn.split(':')[0]}",
+                            f"{r_['names'][i]} {op} {r_['names'][j]} RAISED {exn} in family "
+                            f"{fid} (seed {s_}): a comparison must answer, not raise",
+                            record={"check": "family", "id": fid, "kind": r_["kind"],
+                                    "ctx": r_["ctx"], "pairs": [[r_["names"][i],
+                                                                 r_["names"][j]]]},
+                            sig={"clause": "comparison_raised", "kind": r_["kind"],
+                                 "exc": exn.split(":")[0]})
             stats["wall_family_eval_s"] += round(time.time() - t0, 1)
             t0 = time.time()
             val = tlcx.validate("PtEqCheck", "PtEqCheck.cfg", records, timeout=2400,
